@@ -1,4 +1,5 @@
 import check as _C
+import e2e_e2etraffic
 
 
 def experienced(pid, tier, seed):
@@ -59,7 +60,7 @@ SPEC = {
               "runner": {"pkg": "./producer", "test": "TestVerifRawSocket", "race": False, "timeout": "30m"}},
              {"kind": "producerk", "quick": 400, "thorough": 40000,
               "runner": {"pkg": "./producer", "test": "TestVerifSarama", "race": False, "timeout": "30m"}}],
-    "extra": [experienced],
+    "extra": [experienced, e2e_e2etraffic.traffic_cycles],
     "rule": "fault scripts (sink closes / resets / goes down / comes back at message indices, or stalls and kills the connection while the producer is blocked half-way through writing a multi-megabyte message, or stays connected but reads nothing for 3.5 s "
             "while such a message is being written and then reads everything: event z, stream sockets, no fault — exact delivery and a zero error counter are demanded; "
             "one such case per quick run, 40-48 per thorough run, one or two stalls each, half of them mixed with the other faults; they run in a lane of their own next to the other cases) x protocols unix, tcp, udp x "
